@@ -4,6 +4,7 @@ Post-condition monitor on every FL(r) evaluation of the workload against the pub
 forms evaluated in exact rational arithmetic (oracles.limiter_exact), plus a finiteness monitor on
 convectionTVDupwindRHSTerm for all small integer-valued fields."""
 import io
+import os
 import itertools
 import math
 from contextlib import redirect_stdout
@@ -171,8 +172,48 @@ def run_case(case):
                 FL = pf.fluxLimiter(name, eps)
             bad += check_values(name, FL, r_batch(rng, 'special'))
             cov['fl_calls'] = cov.get('fl_calls', 0) + 1
+        # a limiter requested once WITHOUT the guard (eps = 0: somebody studying the raw formula away from its singular points) does
+        # not change what the named limiter is for everybody else: the default request made afterwards is still total
+        buf = io.StringIO()
+        with redirect_stdout(buf), np.errstate(all='ignore'):
+            raw = pf.fluxLimiter(name, 0.0)
+            raw(np.array([0.5, 2.0, 7.0]))
+            FLd = pf.fluxLimiter(name)
+        bad += [('after-unguarded-request/' + m_, s_) for m_, s_ in check_values(name, FLd, r_batch(rng, 'special'))]
+        bad += [('after-unguarded-request/' + m_, s_) for m_, s_ in check_values(name, FLd, np.array([-1.0, -2.0, -3.0, -0.5, 0.0, 1.0]))]
+        cov['default_after_unguarded_request'] = 1
         bad = [(name + '/eps-arg/' + m_, s_) for m_, s_ in bad]
         return _pack(bad, 'eps/' + name, cov, {'kind': 'eps', 'limiter': name}, {'limiter': name})
+    if kind == 'first-request':
+        # order of requests within one interpreter: in a FRESH process the very first request of a name is the unguarded one (eps = 0),
+        # the default request comes second - and must be the total, published limiter all the same. (Worker processes of this run have
+        # requested every name long before, so this history needs a process of its own.)
+        import subprocess
+        import sys
+        import json as _json
+        from .. import REPO_SRC
+        name = case['name']
+        rr = [float(f) for f in SPECIAL] + [0.0, -0.0, 1e-300, -1e-300]
+        script = ('import json, io, numpy as np\nfrom contextlib import redirect_stdout\nimport pyfvtool as pf\nr = np.array(%r)\n'
+                  'with redirect_stdout(io.StringIO()), np.errstate(all="ignore"):\n    raw = pf.fluxLimiter(%r, 0.0); raw(np.array([0.5, 2.0]))\n'
+                  '    FL = pf.fluxLimiter(%r); out = np.asarray(FL(r), dtype=float)\nprint(json.dumps([float(x) for x in out]))\n') % (rr, name, name)
+        env = dict(os.environ, PYTHONPATH=REPO_SRC, OMP_NUM_THREADS='1')
+        pr = subprocess.run([sys.executable, '-B', '-W', 'ignore', '-c', script], capture_output=True, text=True, timeout=120, env=env)
+        bad = []
+        if pr.returncode != 0:
+            return {'verdict': 'inconclusive', 'key': 'first-request/' + name, 'msg': 'helper process failed: ' + pr.stderr[-300:], 'cov': cov, 'nontrivial': False}
+        vals = np.array(_json.loads(pr.stdout.strip().splitlines()[-1]), dtype=float)
+        ex = np.array([float(limiter_exact(name, Fraction(float(x)))) for x in rr])
+        nf = ~np.isfinite(vals)
+        if np.any(nf):
+            i_ = int(np.argmax(nf))
+            bad.append((name + '/first-request/nonfinite', '%s requested with eps=0 first and by default afterwards: default limiter gives %r at r = %r' % (name, vals[i_], rr[i_])))
+        err = np.where(nf, 0.0, np.abs(vals - ex) / np.maximum(1.0, np.abs(ex)))
+        if np.any(err > 1e-12):
+            i_ = int(np.argmax(err))
+            bad.append((name + '/first-request/value', '%s requested with eps=0 first and by default afterwards: psi(%r) = %r, published form %r' % (name, rr[i_], vals[i_], ex[i_])))
+        cov['fresh_process_histories'] = 1
+        return _pack(bad, 'first-request/' + name, cov, {'kind': 'first-request', 'limiter': name}, {'limiter': name})
     if kind == 'unknown':
         name = case['name']
         FL, printed = get_FL(name)
@@ -278,6 +319,8 @@ def plan(tier, seed):
                     i += 1
         chunks.append(cases)
     chunks.append([{'kind': 'eps', 'name': nm, 'seed': [seed, 13, 998, j]} for j, nm in enumerate(LIMITERS)])
+    for j, nm in enumerate(LIMITERS):         # one helper process each: spread over the workers
+        chunks.append([{'kind': 'first-request', 'name': nm, 'seed': [seed, 13, 996, j]}])
     chunks.append([{'kind': 'intratio', 'name': nm, 'seed': [seed, 13, 997, j]} for j, nm in enumerate(LIMITERS)])
     chunks.append([{'kind': 'unknown', 'name': nm, 'seed': [seed, 13, 999, j]}
                    for j, nm in enumerate(['superbee', 'NoSuchLimiter', '', 'minmod', 'VANLEER', 'Van Leer'])])
